@@ -10,7 +10,7 @@ EXPLANATION = (
     "(R-WORKERS) every worker closure sends exactly one Result on every normal path and the output loop only ends "
     "when the channel is closed; (R-LOOPEXIT) inside the directory-walk loop only configuration / ignore-file errors can abort the run - no per-file operation is followed by `?`; (R-ERRSTATUS) every Err handled by the output thread raises the status to 2; (R-EXIT) worker panics map to status 2; (R-PANICMODE) no Cargo profile / rustflags of the workspace selects panic = \"abort\" (a panicking worker must unwind for that); (R-VERIFY) format_ast returns Err on both "
     "verification failures before Ok(ast), and with OutputVerification::Full every path to Ok(ast) passes the reparse of the printed formatted tree and AstVerifier::compare(input clone, reparse) == true. Not decided: atomicity of fs::write itself, read-only files."
-    "Later rounds: (R-PARSE) format only on the parser's Ok edge; (R-WORKERS) jobs only inside the pool, on the pool whose panic_count decides the exit status; (R-EXACTREAD). Rounds 17-19: (R-ERRSTATUS) direct stores only, also for the walker.")
+    "Later rounds: (R-PARSE) format only on the parser's Ok edge; (R-WORKERS) jobs only inside the pool, on the pool whose panic_count decides the exit status; (R-EXACTREAD). Rounds 17-19: (R-ERRSTATUS) direct stores only, also for the walker. Round 22: (R-VERIFYINPUT) --verify compares against a clone of the tree format_ast was given.")
 ASSUMPTIONS = ["std::fs::write either fails or replaces the file (its own atomicity is outside the stated fault model)",
                "threadpool counts panicking jobs in panic_count()",
                "rustc MIR and Instance::try_resolve are trusted"]
